@@ -11,9 +11,7 @@ pub const SH_TYPES: [u32; 12] = [1, 2, 3, 4, 5, 6, 7, 8, 9, 11, 0x6ffffff6, 0x6f
 /// Operation sequence: queries on the file's own headers plus fabricated headers whose (start,end) come
 /// from a small pool of boundaries, so that different ranges share a start or an end and recur.
 pub fn gen_ops(c: &mut Choice, nsec: usize, nseg: usize, len: usize, names: &[Vec<u8>], max_ops: usize) -> (Vec<Q>, bool) {
-    // long histories over many distinct fabricated ranges only where the caller asks for them (C07): the
-    // stream parser's cache table grows with the number of distinct caller-fabricated ranges, which is outside
-    // what C08 bounds (see DESIGN 11.2)
+    // a minority of long histories over many distinct fabricated ranges (C07, C08)
     let long = max_ops >= 40 && c.chance(20);
     let n = if long { 60 + c.below(90) as usize } else { c.below(max_ops as u64 + 1) as usize };
     let mut pool = [0u64; 5];
